@@ -268,28 +268,30 @@ type CrashOutcome struct {
 }
 
 type crashJob struct {
-	script  Script
-	img     Image
-	variant string
-	dir     string // directory to recover (image or a modified copy)
-	level   int
-	deeper  bool // take second-level images
+	script     Script
+	img        Image
+	variant    string
+	dir        string // directory to recover (image or a modified copy)
+	level      int
+	deeper     bool     // take second-level images
+	renameWals []string // walname variant: wal files (oldest first) to rename right before recovery
 }
 
 type crashRunner struct {
-	self     string
-	outdir   string
-	mu       sync.Mutex
-	traces   [][]rec.Event
-	outcomes []CrashOutcome
-	meta     []map[string]any
-	jobs     chan crashJob
-	wg       sync.WaitGroup
-	torn     string // "" | quick | thorough
-	walname  bool
-	depth    int
-	keepBad  string
-	vidc     int
+	self      string
+	outdir    string
+	mu        sync.Mutex
+	traces    [][]rec.Event
+	outcomes  []CrashOutcome
+	meta      []map[string]any
+	jobs      chan crashJob
+	wg        sync.WaitGroup
+	torn      string // "" | quick | thorough
+	walname   bool
+	deepEvery int
+	depth     int
+	keepBad   string
+	vidc      int
 }
 
 func inflight(prefix []rec.Event) bool {
@@ -312,7 +314,34 @@ func (cr *crashRunner) worker() {
 	}
 }
 
+// walLess orders wal file names by (second, nanosecond) numerically.
+func walLess(a, b string) bool {
+	pa := strings.Split(strings.TrimSuffix(a, ".log"), "-")
+	pb := strings.Split(strings.TrimSuffix(b, ".log"), "-")
+	if len(pa) < 3 || len(pb) < 3 {
+		return a < b
+	}
+	if pa[1] != pb[1] {
+		return pa[1] < pb[1]
+	}
+	var na, nb int64
+	fmt.Sscan(pa[2], &na)
+	fmt.Sscan(pb[2], &nb)
+	return na < nb
+}
+
 func (cr *crashRunner) runJob(j crashJob) {
+	if len(j.renameWals) > 0 {
+		now := time.Now()
+		if now.Nanosecond() > 600_000_000 {
+			time.Sleep(time.Duration(1_000_000_000-now.Nanosecond()+1_000_000) * time.Nanosecond)
+			now = time.Now()
+		}
+		sec := now.Format("20060102150405")
+		for i, name := range j.renameWals {
+			_ = os.Rename(filepath.Join(j.dir, name), filepath.Join(j.dir, fmt.Sprintf("wal-%s-%d.log", sec, 7+i)))
+		}
+	}
 	cfgb, _ := json.Marshal(j.script.Cfg)
 	cr.mu.Lock()
 	cr.vidc++
@@ -411,7 +440,24 @@ func (cr *crashRunner) submit(s Script, img Image, r *rand.Rand) {
 	if _, err := copyDir(img.Dir, work); err != nil {
 		panic(err)
 	}
-	cr.jobs <- crashJob{script: s, img: img, dir: work, level: 1, deeper: cr.depth > 1 && r.Intn(6) == 0}
+	cr.jobs <- crashJob{script: s, img: img, dir: work, level: 1, deeper: cr.depth > 1 && r.Intn(cr.deepEvery) == 0}
+	// wal-name variant: the same image with its wal files named as if they had been created in the
+	// first nanoseconds of the second in which recovery runs (names the code can produce)
+	if cr.walname && r.Intn(4) == 0 {
+		var wals []string
+		for name := range img.Files {
+			if strings.HasSuffix(name, ".log") {
+				wals = append(wals, name)
+			}
+		}
+		if len(wals) > 0 && len(wals) <= 3 {
+			sort.Slice(wals, func(i, j int) bool { return walLess(wals[i], wals[j]) })
+			v := img.Dir + "-wn"
+			if _, err := copyDir(img.Dir, v); err == nil {
+				cr.jobs <- crashJob{script: s, img: img, dir: v, level: 1, variant: "walname", renameWals: wals}
+			}
+		}
+	}
 	if cr.torn != "" {
 		for name, fsx := range img.Files {
 			if fsx.Written <= fsx.Synced {
@@ -457,6 +503,8 @@ func cmdCrash(args []string) int {
 	shards := fs.Int("shards", 1, "")
 	torn := fs.String("torn", "", "also cut unsynced tails: quick | thorough")
 	depth := fs.Int("depth", 1, "2: also crash inside recovery runs")
+	deepEvery := fs.Int("deep-every", 6, "with depth 2: second-level images for every n-th image")
+	walname := fs.Bool("walname", false, "also recover a quarter of the images with same-second wal names")
 	par := fs.Int("par", 4, "recovery children in parallel")
 	maxImg := fs.Int("max-images", 2000, "per script")
 	file := fs.String("scripts", "", "ndjson of scripts to run instead")
@@ -497,7 +545,7 @@ func cmdCrash(args []string) int {
 		defer os.RemoveAll(imgroot)
 	}
 	cr := &crashRunner{self: self, outdir: *out, jobs: make(chan crashJob, 8), torn: *torn, depth: *depth,
-		keepBad: join(*out, "bad-images")}
+		keepBad: join(*out, "bad-images"), walname: *walname, deepEvery: *deepEvery}
 	for i := 0; i < *par; i++ {
 		cr.wg.Add(1)
 		go cr.worker()
